@@ -203,6 +203,13 @@ func ParseContracts(file, text, pkg string, out *ContractSet) error {
 				kind = "ensures"
 			}
 			if idx < 0 {
+				idx = strings.Index(rest, " assume")
+				kind = "assume"
+				if idx >= 0 {
+					rest = rest[:idx] + " ensures" + rest[idx+len(" assume"):]
+				}
+			}
+			if idx < 0 {
 				return fmt.Errorf("%s: bad at clause", where)
 			}
 			callee := strings.TrimSpace(rest[:idx])
